@@ -28,6 +28,7 @@ func runHistory(t *rapid.T, col *evid.Collector, f Focus, weights map[string]int
 		"block":          m.opBlock,
 		"prove":          m.opProve,
 		"peersync":       m.opPeerSync,
+		"staleOvertake":  m.opStaleOvertake,
 	}
 	// rapid's Repeat picks actions uniformly; weights are realised by aliasing an action under
 	// several names.
@@ -214,6 +215,19 @@ func TestProp_C01_deep(t *testing.T) {
 	col := evid.For("C01", "deep", deepDesc+"oracle and non-trivial rule as in the history leg")
 	rapid.Check(t, func(t *rapid.T) {
 		runHistory(t, col, Focus{ID: "C01", RealDepth: true}, weightsDeep, ntC01)
+	})
+}
+
+// TestProp_C01_stale: the real-depth regime with 2..3 stale forks (created early in a drawn order,
+// overlapping spans), the base length chosen so that the prune boundary of a Clean falls among
+// their tips, then Cleans, small extensions and a stale fork overtaking the whole chain.
+func TestProp_C01_stale(t *testing.T) {
+	col := evid.For("C01", "stale", deepDesc+"with 2..3 STALE forks created early (drawn creation order, overlapping spans), the base length chosen so that the prune boundary of a Clean falls among their tips, and a stale fork later overtaking the whole chain (a reorganisation across the retained depth); oracle as in the history leg; non-trivial = a stale fork overtook after a Clean")
+	w := map[string]int{"extend": 3, "clean": 4, "staleOvertake": 4, "reload": 1, "save": 1}
+	rapid.Check(t, func(t *rapid.T) {
+		runHistory(t, col, Focus{ID: "C01", RealDepth: true, StaleForks: true}, w, func(m *M) bool {
+			return m.k.HasClass("stale_fork_overtakes") && m.cleans > 0
+		})
 	})
 }
 
